@@ -288,6 +288,12 @@ func stringConstsReaching(v ssa.Value, seen map[ssa.Value]bool, out map[string]b
 		for _, e := range x.Edges {
 			stringConstsReaching(e, seen, out)
 		}
+	case *ssa.Call:
+		stringConstsOfResult(x, 0, seen, out)
+	case *ssa.Extract:
+		if c, ok := x.Tuple.(*ssa.Call); ok {
+			stringConstsOfResult(c, x.Index, seen, out)
+		}
 	case *ssa.UnOp:
 		if ia, ok := x.X.(*ssa.IndexAddr); ok {
 			stringConstsReaching(ia.X, seen, out)
@@ -347,34 +353,44 @@ var ruleLayout = &Rule{
 		if pt == nil {
 			out.undecided("ParseTime", "-", "", "anchor unresolved")
 		} else {
-			for _, b := range pt.Blocks {
-				for _, ins := range b.Instrs {
-					c, ok := ins.(*ssa.Call)
-					if !ok || calleeQualified(&c.Call) != "time.Parse" {
-						continue
-					}
-					ls := map[string]bool{}
-					stringConstsReaching(c.Call.Args[0], map[ssa.Value]bool{}, ls)
-					errV := extractOf(c, 1)
-					if errV == nil {
-						continue
-					}
-					for _, b2 := range pt.Blocks {
-						if isNil, _ := nilFact(factsAt(b2), errV); !isNil {
+			// ParseTime and the helpers of package types it delegates to
+			var scan []*ssa.Function
+			for _, f := range moduleFuncs(p.reachFrom([]*ssa.Function{pt}).Set) {
+				if fnPkgPath(f) == pkgTypes && f.Blocks != nil {
+					scan = append(scan, f)
+				}
+			}
+			sortFuncs(scan)
+			for _, pt := range scan {
+				for _, b := range pt.Blocks {
+					for _, ins := range b.Instrs {
+						c, ok := ins.(*ssa.Call)
+						if !ok || calleeQualified(&c.Call) != "time.Parse" {
 							continue
 						}
-						for _, i2 := range b2.Instrs {
-							c2, ok := i2.(*ssa.Call)
-							if !ok || c2.Call.StaticCallee() == nil || fnPkgPath(c2.Call.StaticCallee()) != pkgTypes {
+						ls := map[string]bool{}
+						stringConstsReaching(c.Call.Args[0], map[ssa.Value]bool{}, ls)
+						errV := extractOf(c, 1)
+						if errV == nil {
+							continue
+						}
+						for _, b2 := range pt.Blocks {
+							if isNil, _ := nilFact(factsAt(b2), errV); !isNil {
 								continue
 							}
-							if ptr, ok := c2.Type().(*types.Pointer); ok {
-								if n, ok := ptr.Elem().(*types.Named); ok {
-									if byType[n.Obj().Name()] == nil {
-										byType[n.Obj().Name()] = map[string]bool{}
-									}
-									for l := range ls {
-										byType[n.Obj().Name()][l] = true
+							for _, i2 := range b2.Instrs {
+								c2, ok := i2.(*ssa.Call)
+								if !ok || c2.Call.StaticCallee() == nil || fnPkgPath(c2.Call.StaticCallee()) != pkgTypes {
+									continue
+								}
+								if ptr, ok := c2.Type().(*types.Pointer); ok {
+									if n, ok := ptr.Elem().(*types.Named); ok {
+										if byType[n.Obj().Name()] == nil {
+											byType[n.Obj().Name()] = map[string]bool{}
+										}
+										for l := range ls {
+											byType[n.Obj().Name()][l] = true
+										}
 									}
 								}
 							}
@@ -430,3 +446,38 @@ var ruleLayout = &Rule{
 }
 
 func init() { register(ruleLayout) }
+
+// stringConstsOfResult: string constants that result idx of a call to a module
+// function can be: what the callee's returns yield, with the callee's own
+// parameters (also behind phis) replaced by the arguments of this call.
+func stringConstsOfResult(c *ssa.Call, idx int, seen map[ssa.Value]bool, out map[string]bool) {
+	sc := c.Call.StaticCallee()
+	if sc == nil || !inModule(sc) || sc.Blocks == nil {
+		return
+	}
+	var follow func(v ssa.Value, depth int)
+	follow = func(v ssa.Value, depth int) {
+		if depth > 6 {
+			return
+		}
+		switch y := v.(type) {
+		case *ssa.Parameter:
+			for i, q := range sc.Params {
+				if q == y && i < len(c.Call.Args) {
+					stringConstsReaching(c.Call.Args[i], seen, out)
+				}
+			}
+		case *ssa.Phi:
+			for _, e := range y.Edges {
+				follow(e, depth+1)
+			}
+		default:
+			stringConstsReaching(v, seen, out)
+		}
+	}
+	for _, r := range returnsOf(sc) {
+		if idx < len(r.Results) {
+			follow(r.Results[idx], 0)
+		}
+	}
+}
